@@ -95,8 +95,10 @@ def o_digest(seq: str, sites: Tuple[int, ...], npos: int, glob: bool, rt: str, m
     _SITES = tuple(sites)
     pos = [p0, p1][:npos]
     a = _build(seq, pos, glob, None)
-    spans = list(DG.digest(a, "R", mc, semi, return_type="span"))
-    res = list(DG.digest(a, "R", mc, semi, return_type=rt))
+    # string return types are asked for with the protein given as a ProForma string (the usual call), the others with the object
+    prot = a.serialize() if rt in ("str", "str-span") else a
+    spans = list(DG.digest(prot, "R", mc, semi, return_type="span"))
+    res = list(DG.digest(prot, "R", mc, semi, return_type=rt))
     if len(res) != len(spans):
         return _fail(why="return types disagree on the number of peptides", rt=rt, got=len(res), spans=len(spans))
     for sp, r in zip(spans, res):
@@ -125,7 +127,7 @@ def o_generators(seq: str, npos: int, glob: bool, which: str, mn: int, mx: int, 
     fn = {"left": DG.get_left_semi_enzymatic_sequences, "right": DG.get_right_semi_enzymatic_sequences,
           "semi": DG.get_semi_enzymatic_sequences, "non": DG.get_non_enzymatic_sequences}[which]
     res = list(fn(a, mn, mx, "annotation-span"))
-    texts = list(fn(a, mn, mx, "str"))
+    texts = list(fn(a.serialize() if which in ("left", "non") else a, mn, mx, "str"))      # string in / object in
     if len(res) != len(texts):
         return _fail(why="return types disagree")
     for (ann, sp), text in zip(res, texts):
